@@ -780,7 +780,9 @@ class Engine:
                 # a process that replaces another one at its path
                 # starts afresh, like any process entering now
                 self.front.pop(path, None)
-                self._add_process_path(process, path, {})
+                # a step given among the processes has its place in
+                # the flow like one given at construction
+                self._add_process_path(process, path, self.flow)
 
         if step_updates:
             for path, step in step_updates:
